@@ -215,6 +215,11 @@ SPECS = [
       s0="{ view := A.init, window_len := N, m := offset * (nat N + nat 1), s := nat N / sigma, wtd_sum := nat 0, cum_wt := nat 0, q_vals := [], q_wtd := [], q_out := [] }",
       model="wrap A (almaCore {N} sigma offset)", unfold="almaCore, almaWeight", mstate="A.σ × AlmaState α",
       abs="(s.view, { wtdSum := s.wtd_sum, cumWt := s.cum_wt, qVals := s.q_vals, qWtd := s.q_wtd, qOut := s.q_out })"),
+ dict(view="LaguerreFilter", src="src/sliding_windows/laguerre_filter.rs", imports=["SF.Model.Ehlers"], params="(g : α)", cfg=[("gamma", "g")],
+      inv=["s.l1s.length = s.l0s.length", "s.l2s.length = s.l0s.length", "s.l3s.length = s.l0s.length"],
+      s0="{ view := A.init, gamma := g, l0s := [], l1s := [], l2s := [], l3s := [], filts := [] }",
+      model="wrap A (lagfCore {g})", unfold="lagfCore, fromEnd", heartbeats=16000000, mstate="A.σ × LagfState α",
+      abs="(s.view, { l0s := s.l0s, l1s := s.l1s, l2s := s.l2s, l3s := s.l3s, filts := s.filts })"),
 ] + [
  dict(view=v, src="src/pure_functions/%s.rs" % v.lower(), children=["A", "B"], imports=["SF.Model.Pure"],
       s0="{ a := A.init, b := B.init }", model="binop %s A B" % f, unfold=f, mstate="A.σ × B.σ", abs="(s.a, s.b)")
